@@ -146,4 +146,44 @@ class ApiPart:
         return []
 
 
-PARTS = [WirePart, ApiPart]
+class VissPart:
+    """the same store seen through the VISS websocket: values written through gRPC read back as texts over VISS (and the reverse), and the static-metadata tree against the registration (data type names, entry types, allowed lists, descriptions) - the clauses C15-meta / C15-bits of the VISS family"""
+    FAM = 20
+    CROSS_MAX = 0
+
+    @staticmethod
+    def generate(rng, tier):
+        from .. import viss as VI
+        n = 60 if tier == "quick" else 1500
+        return [("vs%d" % i, VI.gen_case(rng, open_mode=(i % 6 == 5))) for i in range(n)]
+
+    @staticmethod
+    def compare(lines, m, i):
+        from . import c20
+        return c20.compare(lines, m, i)
+
+    @staticmethod
+    def monitor(lines, out):
+        from .. import viss as VI
+        return [f for f in VI.monitor(lines, out) if f.startswith(("C15-", "C20-codec", "C20-shared(C15"))]
+
+    @staticmethod
+    def nontrivial(lines, out):
+        return hash(tuple(map(tuple, lines)))
+
+    @staticmethod
+    def histogram(lines, out):
+        from . import c20
+        return ["viss:" + h for h in c20.histogram(lines, out) if h.startswith("V")]
+
+    @staticmethod
+    def pretty(lines):
+        from .. import viss as VI
+        return VI.pretty(lines)
+
+    @staticmethod
+    def neighbours(lines, rng):
+        return []
+
+
+PARTS = [WirePart, ApiPart, VissPart]
